@@ -100,6 +100,8 @@ type Random struct {
 	// Gens are the process sets of the generations after a stop (one stop + adopt per entry).
 	Gens  []map[string]ProcSpec `json:"gens"`
 	PStop float64               `json:"pstop"`
+	// PStopIO: probability of a stop when some process is about to do a Persistence or network write
+	PStopIO float64 `json:"pstopio"`
 	// Burst: the named process stays parked until step At, then runs alone until it blocks or ends
 	// (Close / Disconnect issued at a chosen gate of the others and completed without interference).
 	Burst *Burst `json:"burst,omitempty"`
@@ -122,9 +124,10 @@ type Burst struct {
 
 // Inbound is a broker-to-client publication.
 type Inbound struct {
-	QoS  int `json:"qos"`
-	Tag  int `json:"tag"`
-	Size int `json:"size"`
+	QoS   int  `json:"qos"`
+	Tag   int  `json:"tag"`
+	Size  int  `json:"size"`
+	After bool `json:"after"` // only once the earlier deliveries are complete (identifier reuse)
 }
 
 type exch struct {
@@ -1070,7 +1073,7 @@ func (x *Exec) randomRun(r *Random) {
 		}
 		// environment moves of the explorer: an inbound publication, a process stop
 		if len(inbound) > 0 && x.Client != nil && rng.Intn(8) == 0 {
-			if c := x.W.Conn(len(x.W.Conns())); c != nil && !c.IsClosed() && c.Established() {
+			if c := x.W.Conn(len(x.W.Conns())); c != nil && !c.IsClosed() && c.Established() && !(inbound[0].After && x.W.Broker.OutPending() != 0) {
 				in := inbound[0]
 				inbound = inbound[1:]
 				x.emit(sim.Ev{"e": "step", "i": n + 1, "env": "inject", "c": c.ID()})
@@ -1090,7 +1093,13 @@ func (x *Exec) randomRun(r *Random) {
 				continue
 			}
 		}
-		if len(gens) > 0 && x.Client != nil && (rng.Float64() < r.PStop || len(names) == 0) {
+		atIO := false
+		for _, g := range parked {
+			if g.Kind == "store" || g.Kind == "write" {
+				atIO = true
+			}
+		}
+		if len(gens) > 0 && x.Client != nil && (rng.Float64() < r.PStop || len(names) == 0 || (atIO && rng.Float64() < r.PStopIO)) {
 			x.envStep(n, &Step{Env: "stop"})
 			for i := range r.Damage {
 				x.envStep(n, &r.Damage[i])
